@@ -1,8 +1,8 @@
 SPECIFICATION MCSpec
 CONSTANTS
   Relax = {}
-  Mode = "honest"
-  MaxBlocks = 2
+  Mode = "revoked"
+  MaxBlocks = 4
   MaxReload = 1
 CONSTRAINT Bounded
 VIEW View
